@@ -3473,13 +3473,49 @@ func ruleDecHeadroom(c *Ctx) {
 			n++
 			key := fmt.Sprintf("%s:BufferSize-default#%d", fnName(fn), n)
 			v := fi.lin(st.Val)
-			good := false
-			for _, w := range fi.atomsWithSuffix(".WindowSize") {
-				if fi.proveAt(linAtom(w).scale(2).sub(v), b, nil) {
-					good = true
+			// the upper end of the range Verify accepts for BufferSize (a constant compared with the field)
+			var maxBS *int64
+			if vf := c.method(cfgT, "Verify"); vf != nil {
+				for _, vb := range vf.Blocks {
+					for _, vin := range vb.Instrs {
+						bo, ok := vin.(*ssa.BinOp)
+						if !ok {
+							continue
+						}
+						for _, pr := range [][2]ssa.Value{{bo.X, bo.Y}, {bo.Y, bo.X}} {
+							if k, isC := constInt(pr[1]); isC && k > 1 {
+								if ff := loadedField(stripConv(pr[0])); ff != nil && ff.Name() == "BufferSize" {
+									kk := k
+									maxBS = &kk
+								}
+							}
+						}
+					}
 				}
 			}
-			c.check(good, key, st.Pos(), "default BufferSize ≥ 2·WindowSize", "the default BufferSize "+v.String()+" is not shown to be ≥ 2·WindowSize: with the default configuration a valid sequence of up to WindowSize bytes can be refused for good (ErrFullBuffer) once the window is full")
+			good, inRange := true, maxBS != nil
+			cases := fi.topCases(v, b)
+			if len(cases) == 0 {
+				good, inRange = false, false
+			}
+			for _, cs := range cases {
+				le := func(l Lin) bool { return fi.proveLE0(l, cs.Conds, cs.Eqs, map[string]bool{}, 0) }
+				atMax := maxBS != nil && cs.L.isConst() && cs.L.c == *maxBS
+				twice := false
+				for _, w := range fi.atomsWithSuffix(".WindowSize") {
+					if le(linAtom(w).scale(2).sub(cs.L)) {
+						twice = true
+					}
+				}
+				if !twice && !atMax {
+					good = false
+				}
+				if maxBS != nil && !le(cs.L.addc(-*maxBS)) {
+					inRange = false
+				}
+			}
+			c.check(good, key, st.Pos(), "default BufferSize ≥ 2·WindowSize (or the largest BufferSize Verify accepts)", "the default BufferSize "+v.String()+" is not shown to be ≥ 2·WindowSize: with the default configuration a valid sequence of up to WindowSize bytes can be refused for good (ErrFullBuffer) once the window is full")
+			c.check(inRange, key+":in-range", st.Pos(), "the default BufferSize is within the range Verify accepts", "the default BufferSize "+v.String()+" can exceed the largest BufferSize that Verify accepts: for a WindowSize that parsers accept (2^31 and above) the default Decoder cannot be created at all")
 		}
 	}
 	if n == 0 {
